@@ -186,6 +186,7 @@ func (x *Exec) doCallVals(p *Path, site ssa.Instruction, cc *ssa.CallCommon, fnv
 	}
 	// dynamic function value
 	if ft := x.functypeContract(cc); ft != nil {
+		x.selfVal0 = &fnv
 		x.applyContract(p, site, ft, nil, key, args, rtypes, rtuple, k, pk)
 		return
 	}
@@ -319,6 +320,10 @@ func (x *Exec) applyContract(p *Path, site ssa.Instruction, fc *FuncContract, ca
 	evArgs := args[x.evArgsSkip:]
 	x.evArgsSkip = 0
 	vars := x.contractVars(fc, callee, args)
+	if x.selfVal0 != nil {
+		vars["self"] = *x.selfVal0
+		x.selfVal0 = nil
+	}
 	cname := fc.Name
 	pre := x.evalCtx(p, vars)
 	pre.pkg = fc.Pkg
